@@ -34,17 +34,37 @@ Proof. exact ack_implies_durable. Qed.
 Print Assumptions C03_ack_implies_durable.
 
 (* Crash safety (logs AND values; the hash-tree CONTENT is C03_crash_safety_tree below), the code as
-   it is (since 09014a8).  For EVERY reachable state and EVERY crash image of it (per file: any prefix
-   of the un-fsynced operations, torn last write, pending truncations applied or not):
-   EITHER the image fails the size check of ahtree.OpenWith (the tree's digest log is shorter than its
-   commit log says) and recovery returns ErrCorruptedData — this DOES happen, C03_crash_safety_values_refuted —
-   OR recovery succeeds, is again a reachable state ready for commits (idle, hash tree re-linked to
-   the precommitted id) whose files are the images, every acknowledged transaction is read back
-   BYTE-IDENTICAL, the recovered committed history is gap-free with a consistent hash chain and
-   extends the acknowledged one, and EVERY transaction of the recovered committed history has its
-   values in the value-log image.  Nothing else can go wrong: the tx, commit and value logs ALWAYS
-   recover. *)
-Theorem C03_crash_safety_values_partial :
+   it is: since fix b260503 (c_ahtsync = true) and fix 0b488aa (c_ahtreset = RSync: ahtree.ResetSize
+   rewinds the tree's commit log AND fsyncs it before the payload/digest logs can be truncated) —
+   the two switches the correspondence run compares with the code (Tie.C03.repair_applied,
+   Tie.C03.aht_durable_reset).  For EVERY reachable state and EVERY crash image of it (per file: any
+   prefix of the un-fsynced operations, torn last write, pending truncations applied completely,
+   partly or not at all), recovery SUCCEEDS, is again a reachable state ready for commits (idle, hash
+   tree re-linked to the precommitted id) whose files are the images, every acknowledged transaction
+   is read back BYTE-IDENTICAL, the recovered committed history is gap-free with a consistent hash
+   chain and extends the acknowledged one, and EVERY transaction of the recovered committed history
+   has its values in the value-log image. *)
+Theorem C03_crash_safety_values :
+  forall (H : bytes -> bytes), (forall x, length (H x) = 32%nat) ->
+  forall (c : cfg) (nv : nat) (s : st) (im : images),
+    c_prealloc c = false -> 0 < c_thld c -> c_ahtsync c = true -> c_ahtreset c = RSync ->
+    reach H c nv s -> crash s im ->
+    exists s', recover H c im = Ok s' /\ reach H c nv s' /\
+      acked s <= committed s' /\ acked s' = committed s' /\ phase_ s' = PIdle /\
+      asize s' = precommitted s' /\
+      durable (txl s') = i_txl im /\ durable (cml s') = i_cml im /\ map durable (vls s') = i_vls im /\
+      (forall k, 1 <= k <= acked s ->
+         tx_at (i_txl im) (i_cml im) k = tx_at (durable (txl s)) (durable (cml s)) k) /\
+      history_ok H (i_txl im) (i_cml im) (committed s') /\
+      (forall k, 1 <= k <= committed s' -> values_durable_for H s' k).
+Proof. exact crash_safety_repaired. Qed.
+Print Assumptions C03_crash_safety_values.
+
+(* HISTORY, any ResetSize variant (in particular the code between 09014a8 and 0b488aa, c_ahtreset =
+   RCut / RMem): the tx, commit and value logs ALWAYS recover; the only thing that can go wrong is
+   the size check of ahtree.OpenWith (the tree's digest log shorter than its commit log says), and
+   then recovery returns ErrCorruptedData. *)
+Theorem C03_crash_safety_values_before_0b488aa_partial :
   forall (H : bytes -> bytes), (forall x, length (H x) = 32%nat) ->
   forall (c : cfg) (nv : nat) (s : st) (im : images),
     c_prealloc c = false -> 0 < c_thld c -> reach H c nv s -> crash s im ->
@@ -59,49 +79,26 @@ Theorem C03_crash_safety_values_partial :
       history_ok H (i_txl im) (i_cml im) (committed s') /\
       (forall k, 1 <= k <= committed s' -> values_durable_for H s' k)).
 Proof. exact crash_safety. Qed.
-Print Assumptions C03_crash_safety_values_partial.
+Print Assumptions C03_crash_safety_values_before_0b488aa_partial.
 
-(* REFUTED for the code as it is (known finding D, since 09014a8; c_ahtreset = RCut = fix 6a85281,
-   ahtree.ResetSize rewinds the tree's commit log but does not fsync it): transaction 1 committed and
-   acknowledged; 2 and 3 precommitted, the tree reaches its sync threshold and fsyncs 3 leaves, crash
-   before the tx log is fsynced; recovery resets the tree to 1 leaf (commit log truncated, pending);
-   the next precommit appends leaf 2' at offset 32 = the digest log is truncated there (chunk files
-   removed and the directory fsynced when the rewind crosses a chunk boundary); second crash with the
-   second truncation on disk and the first not: the tree's commit log still lists 3 entries,
-   ahtree.OpenWith fails ("hash log is corrupted" / "data log is corrupted"), the store does not open
-   although it holds an acknowledged commit. *)
-Theorem C03_crash_safety_values_refuted :
+(* HISTORY (finding D, FIXED by 0b488aa; the code between 09014a8 and 0b488aa, c_ahtreset = RCut):
+   that exception did happen.  Transaction 1 committed and acknowledged; 2 and 3 precommitted, the
+   tree reaches its sync threshold and fsyncs 3 leaves, crash before the tx log is fsynced; recovery
+   resets the tree to 1 leaf (commit log truncated, NOT fsynced); the next precommit appends leaf 2'
+   at offset 32 = the digest log is truncated there; second crash with the second truncation on disk
+   and the first not: ahtree.OpenWith fails, the store does not open although it holds an
+   acknowledged commit.  The scenario keeps running on the real store (harness/c03 directed D). *)
+Theorem C03_crash_safety_values_before_0b488aa_refuted :
   exists (c : cfg) (nv : nat) (s : st) (im : images),
     c_prealloc c = false /\ 0 < c_thld c /\ c_ahtsync c = true /\ c_ahtreset c = RCut /\
     reach Hh c nv s /\ crash s im /\ acked s = 1 /\
     len (i_ahd im) < 32 * (len (i_ahc im) / 12) /\
     recover Hh c im = Err ECorruptedData.
 Proof. exact aht_truncation_refuted. Qed.
-Print Assumptions C03_crash_safety_values_refuted.
-
-(* With the proposed repair fixes/C03-aht-durable-reset.diff (ahtree.ResetSize fsyncs the tree's
-   commit log after rewinding it, before the payload/digest logs can be truncated; model switch
-   c_ahtreset = RSync — NOT what the correspondence run compares with the code, Tie.C03.aht_durable_reset
-   = RCut): the exception disappears, recovery succeeds on EVERY crash image of EVERY reachable
-   state. *)
-Theorem C03_crash_safety_values_repaired :
-  forall (H : bytes -> bytes), (forall x, length (H x) = 32%nat) ->
-  forall (c : cfg) (nv : nat) (s : st) (im : images),
-    c_prealloc c = false -> 0 < c_thld c -> c_ahtsync c = true -> c_ahtreset c = RSync ->
-    reach H c nv s -> crash s im ->
-    exists s', recover H c im = Ok s' /\ reach H c nv s' /\
-      acked s <= committed s' /\ acked s' = committed s' /\ phase_ s' = PIdle /\
-      asize s' = precommitted s' /\
-      durable (txl s') = i_txl im /\ durable (cml s') = i_cml im /\ map durable (vls s') = i_vls im /\
-      (forall k, 1 <= k <= acked s ->
-         tx_at (i_txl im) (i_cml im) k = tx_at (durable (txl s)) (durable (cml s)) k) /\
-      history_ok H (i_txl im) (i_cml im) (committed s') /\
-      (forall k, 1 <= k <= committed s' -> values_durable_for H s' k).
-Proof. exact crash_safety_repaired. Qed.
-Print Assumptions C03_crash_safety_values_repaired.
+Print Assumptions C03_crash_safety_values_before_0b488aa_refuted.
 
 (* The machine accepts new commits from every idle reachable state whose hash tree is linked up to
-   the precommitted id — in particular from every recovered state (C03_crash_safety_values_partial gives
+   the precommitted id — in particular from every recovered state (C03_crash_safety_values gives
    exactly these premises): (1) a sync cycle commits and acknowledges the reloaded backlog ... *)
 Theorem C03_backlog_is_committed :
   forall (H : bytes -> bytes), (forall x, length (H x) = 32%nat) ->
@@ -134,15 +131,30 @@ Theorem C03_accepts_new_commits :
 Proof. exact accepts_new_commits. Qed.
 Print Assumptions C03_accepts_new_commits.
 
-(* Crash DURING recovery, the code as it is: recovery interrupted after re-linking any number `upto`
-   of hash-tree leaves has written nothing to the tx and value logs and at most TRUNCATED the partial
-   last entry off the commit log (pending, so any crash image of the interrupted state has the same
-   tx and value logs and a commit log cut anywhere at or after the last whole entry); the
-   uninterrupted recovery of the first image succeeds, and recovering the second image EITHER fails
-   the tree's size check (as in C03_crash_safety_values_refuted) OR gives the same committed id,
-   committed Alh, reloaded precommitted transactions, log positions and tx/value log files as the
-   uninterrupted recovery (both idle, tree linked up to the precommitted id). *)
-Theorem C03_crash_during_recovery_partial :
+(* Crash DURING recovery (the code as it is, same switches): recovery interrupted after re-linking any
+   number `upto` of hash-tree leaves, then ANY crash image of the interrupted state: both the
+   uninterrupted recovery of the first image and the recovery of the second image succeed and give
+   the same committed id, committed Alh, reloaded precommitted transactions, log positions and tx /
+   value log files (both idle, tree linked up to the precommitted id). *)
+Theorem C03_crash_during_recovery :
+  forall (H : bytes -> bytes), (forall x, length (H x) = 32%nat) ->
+  forall (c : cfg) (nv : nat) (s : st) (im : images) (upto : nat) (s1 : st) (im' : images),
+    c_prealloc c = false -> 0 < c_thld c -> c_ahtsync c = true -> c_ahtreset c = RSync ->
+    reach H c nv s -> crash s im -> recover_upto H upto c im = Ok s1 -> crash s1 im' ->
+    exists sf s2,
+      recover H c im = Ok sf /\ recover H c im' = Ok s2 /\
+      committed s2 = committed sf /\ calh s2 = calh sf /\ pbuf s2 = pbuf sf /\ palh s2 = palh sf /\
+      pts s2 = pts sf /\ acked s2 = acked sf /\ txl s2 = txl sf /\ vls s2 = vls sf /\
+      phase_ s2 = PIdle /\ phase_ sf = PIdle /\ asize s2 = precommitted s2 /\ asize sf = precommitted sf.
+Proof. exact crash_during_recovery_repaired. Qed.
+Print Assumptions C03_crash_during_recovery.
+
+(* ... in detail, for any ResetSize variant: the interrupted recovery has written nothing to the tx
+   and value logs and at most TRUNCATED the partial last entry off the commit log (pending: the
+   second commit-log image is the first one cut anywhere at or after its last whole entry); the
+   second recovery either fails the tree's size check (impossible since 0b488aa, theorem above) or
+   agrees with the uninterrupted one. *)
+Theorem C03_crash_during_recovery_images :
   forall (H : bytes -> bytes), (forall x, length (H x) = 32%nat) ->
   forall (c : cfg) (nv : nat) (s : st) (im : images) (upto : nat) (s1 : st) (im' : images),
     c_prealloc c = false -> 0 < c_thld c -> reach H c nv s -> crash s im ->
@@ -158,29 +170,14 @@ Theorem C03_crash_during_recovery_partial :
           pts s2 = pts sf /\ acked s2 = acked sf /\ txl s2 = txl sf /\ vls s2 = vls sf /\
           phase_ s2 = PIdle /\ asize s2 = precommitted s2)).
 Proof. exact crash_during_recovery. Qed.
-Print Assumptions C03_crash_during_recovery_partial.
-
-(* ... and with the proposed repair fixes/C03-aht-durable-reset.diff both recoveries always succeed
-   and agree. *)
-Theorem C03_crash_during_recovery_repaired :
-  forall (H : bytes -> bytes), (forall x, length (H x) = 32%nat) ->
-  forall (c : cfg) (nv : nat) (s : st) (im : images) (upto : nat) (s1 : st) (im' : images),
-    c_prealloc c = false -> 0 < c_thld c -> c_ahtsync c = true -> c_ahtreset c = RSync ->
-    reach H c nv s -> crash s im -> recover_upto H upto c im = Ok s1 -> crash s1 im' ->
-    exists sf s2,
-      recover H c im = Ok sf /\ recover H c im' = Ok s2 /\
-      committed s2 = committed sf /\ calh s2 = calh sf /\ pbuf s2 = pbuf sf /\ palh s2 = palh sf /\
-      pts s2 = pts sf /\ acked s2 = acked sf /\ txl s2 = txl sf /\ vls s2 = vls sf /\
-      phase_ s2 = PIdle /\ phase_ sf = PIdle /\ asize s2 = precommitted s2 /\ asize sf = precommitted sf.
-Proof. exact crash_during_recovery_repaired. Qed.
-Print Assumptions C03_crash_during_recovery_repaired.
+Print Assumptions C03_crash_during_recovery_images.
 
 (* Crash safety, hash-tree part (the code since fix b260503: store.sync() fsyncs the tree after the
    tx log and before the commit entries are appended; model switch c_ahtsync = true, which is what
    the correspondence run compares with the code: Tie.C03.repair_applied): in EVERY reachable state —
    hence in every recovered state, after any number of crashes, also during recovery — every leaf k
    of the tree (1 <= k <= tree size) is the Alh of transaction k.  Together with
-   C03_crash_safety_values_partial / _repaired (tree size = precommitted id after recovery) this
+   C03_crash_safety_values (tree size = precommitted id after recovery) this
    completes the crash-safety statement for stores without PreallocFiles.  (For the code before b260503 the
    statement was false: Crash/Refuted.v tree_refuted, known finding B, now fixed.) *)
 Theorem C03_crash_safety_tree :
